@@ -22,12 +22,12 @@ ArithFns == {"add", "sub", "mul", "div", "mod", "min"}
 A1 == {"a", "b", "A", "B", "i", "d", "I", "D", "ee", "EE", "zh", "1", "_", " ", "tab", "/", ".", "-", "xff"}
 UrlLetters == {"u", "r", "l", "U", "R", "L"}
 \* letters whose upper/lower case has another UTF-8 length (2->1, 2->3, 3->2, 3->1), with their images
-LenChange == {"dli", "ls", "tua", "TUA", "ast", "AST", "kel"}
+LenChange == {"dli", "ls", "tua", "TUA", "ast", "AST", "kel", "dz", "Dz", "DZ", "cm"}
 LC3 == LenChange \cup {"a", "A", "I", "k", "d", "xff"}
 Singles(n) == \/ One(SingleFns, StrsUpTo(A1, n)) \/ One({"exported"}, [1..3 -> UrlLetters])
               \/ One(SingleFns, StrsUpTo(A1 \cup LenChange, 2))
               \/ (n >= 3 /\ One(SingleFns, StrsUpTo(LC3, 3)))
-              \/ One({"exported", "firstUpper", "firstLower", "firstIsLower"}, {<<x, y, z>> : x \in LenChange, y \in {"d", "s", "ee"}, z \in {"h", "xff"}})
+              \/ One({"exported", "firstUpper", "firstLower", "firstIsLower"}, {<<x, y, z>> : x \in LenChange, y \in {"d", "s", "ee", "cm"}, z \in {"h", "xff"}})
 
 Pairs(A, la, ls) == Two(PairFns, StrsUpTo(A, la), StrsUpTo(A, ls))
 
